@@ -31,6 +31,9 @@ K32_FUNCS = [dict(fn='secp256k1_scalar_mul_512', short='scalar8x32_mul_512', def
              dict(fn='secp256k1_fe_impl_normalizes_to_zero', short='fe10x26_ntz', defines=W32), dict(fn='secp256k1_fe_impl_cmov', short='fe10x26_cmov', defines=W32),
              dict(fn='secp256k1_gej_add_ge', short='gej_add_ge32', defines=W32, style='bind', flatten=True, inl=['secp256k1_fe_impl_mul', 'secp256k1_fe_impl_sqr'],
                   cps=['fe10x26_mul_inner', 'fe10x26_sqr_inner', 'fe10x26_add', 'fe10x26_negate', 'fe10x26_half', 'fe10x26_mul_int', 'fe10x26_cmov', 'fe10x26_ntz']),
+             dict(fn='secp256k1_ge_set_gej_zinv', short='ge_set_gej_zinv32', defines=W32, style='bind', flatten=True, inl=['secp256k1_fe_impl_mul', 'secp256k1_fe_impl_sqr'], cps=['fe10x26_mul_inner', 'fe10x26_sqr_inner', 'fe10x26_add', 'fe10x26_negate', 'fe10x26_half', 'fe10x26_mul_int']),
+             dict(fn='secp256k1_ge_set_ge_zinv', short='ge_set_ge_zinv32', defines=W32, style='bind', flatten=True, inl=['secp256k1_fe_impl_mul', 'secp256k1_fe_impl_sqr'], cps=['fe10x26_mul_inner', 'fe10x26_sqr_inner', 'fe10x26_add', 'fe10x26_negate', 'fe10x26_half', 'fe10x26_mul_int']),
+             dict(fn='secp256k1_gej_rescale', short='gej_rescale32', defines=W32, style='bind', flatten=True, inl=['secp256k1_fe_impl_mul', 'secp256k1_fe_impl_sqr'], cps=['fe10x26_mul_inner', 'fe10x26_sqr_inner', 'fe10x26_add', 'fe10x26_negate', 'fe10x26_half', 'fe10x26_mul_int']),
              dict(fn='secp256k1_scalar_mul', short='scalar8x32_mul', defines=W32, style='bind', cps=['scalar8x32_mul_512', 'scalar8x32_reduce_512']),
              dict(fn='secp256k1_scalar_sqr', short='scalar8x32_sqr', defines=W32, style='bind', cps=['scalar8x32_sqr_512', 'scalar8x32_reduce_512'])]
 K32_PROOFS = [('scalar8x32_mul_512', 'Kernel/Scalar8x32Mul512.vo', 'scalar8x32_mul_512_correct'),
@@ -41,9 +44,10 @@ K32_PROOFS = [('scalar8x32_mul_512', 'Kernel/Scalar8x32Mul512.vo', 'scalar8x32_m
               ('scalar8x32_mul', 'Kernel/Scalar8x32Mul.vo', 'scalar8x32_mul_correct'), ('scalar8x32_sqr', 'Kernel/Scalar8x32Mul.vo', 'scalar8x32_sqr_correct'),
               ('fe10x26_add', 'Kernel/Field10x26Wp.vo', 'fe10x26_add_wp'), ('fe10x26_negate', 'Kernel/Field10x26Wp.vo', 'fe10x26_negate_wp'), ('fe10x26_mul_int', 'Kernel/Field10x26Wp.vo', 'fe10x26_mul_int_wp'),
               ('fe10x26_half', 'Kernel/Field10x26Wp.vo', 'fe10x26_half_wp'), ('gej_double32', 'Kernel/GejDouble32.vo', 'gej_double32_correct'),
-              ('fe10x26_ntz', 'Kernel/Field10x26Ntz.vo', 'fe10x26_ntz_correct'), ('fe10x26_cmov', 'Kernel/Field10x26Ntz.vo', 'fe10x26_cmov_wp'), ('gej_add_ge32', 'Kernel/GejAddGe32.vo', 'gej_add_ge32_correct')]
+              ('fe10x26_ntz', 'Kernel/Field10x26Ntz.vo', 'fe10x26_ntz_correct'), ('fe10x26_cmov', 'Kernel/Field10x26Ntz.vo', 'fe10x26_cmov_wp'), ('gej_add_ge32', 'Kernel/GejAddGe32.vo', 'gej_add_ge32_correct'),
+              ('ge_set_gej_zinv32', 'Kernel/GroupSmall32.vo', 'ge_set_gej_zinv32_correct'), ('ge_set_ge_zinv32', 'Kernel/GroupSmall32.vo', 'ge_set_ge_zinv32_correct'), ('gej_rescale32', 'Kernel/GroupSmall32.vo', 'gej_rescale32_correct')]
 K32_SHAPES = {'scalar8x32_mul_512': 16, 'scalar8x32_sqr_512': 8, 'scalar8x32_reduce_512': 16, 'scalar8x32_check_overflow': 8, 'scalar8x32_mul': 16, 'scalar8x32_sqr': 8, 'fe10x26_mul_inner': 'F20', 'fe10x26_sqr_inner': 'F10',
-              'fe10x26_add': 'F20', 'fe10x26_negate': 'F10M', 'fe10x26_mul_int': 'F10M', 'fe10x26_half': 'F10', 'gej_double32': 'IF30', 'fe10x26_ntz': 'F10', 'fe10x26_cmov': 'F20I', 'gej_add_ge32': 'IF50'}
+              'fe10x26_add': 'F20', 'fe10x26_negate': 'F10M', 'fe10x26_mul_int': 'F10M', 'fe10x26_half': 'F10', 'gej_double32': 'IF30', 'fe10x26_ntz': 'F10', 'fe10x26_cmov': 'F20I', 'gej_add_ge32': 'IF50', 'ge_set_gej_zinv32': 'IF30', 'ge_set_ge_zinv32': 'IF30', 'gej_rescale32': 'F40'}
 N32 = [0xD0364141, 0xBFD25E8C, 0xAF48A03B, 0xBAAEDCE6, 0xFFFFFFFE, 0xFFFFFFFF, 0xFFFFFFFF, 0xFFFFFFFF]
 def raw32_inputs(rng, n):
     if isinstance(n, str):      # 10x26 field limbs within the magnitude contract: below 2^30, every tenth below 2^26; I = a flag first, M = a small integer last
